@@ -96,6 +96,16 @@ def ports_jobs(cmd, tier, seed, conc=None, extra=None):
     return j
 
 
+def c16_jobs(tier, seed):
+    q = tier == "quick"
+    L = 5 if q else 6
+    j = [Job("rel", "w_contain", "c16 --len %d --nshards 6 --shard %d --secs %d --seed %d --random %d" % (L, i, 60 if q else 900, seed, 300 if q else 5000), timeout=400 if q else 2400) for i in range(6)]
+    j += [Job("dbg", "w_contain", "c16 --len %d --nshards 3 --shard %d --secs %d --seed %d --random 100" % (4 if q else 5, i, 60 if q else 600, seed), timeout=400 if q else 1800) for i in range(3)]
+    j += [Job("asan", "w_contain", "c16 --len %d --nshards 2 --shard %d --secs %d --seed %d --random 50" % (3 if q else 4, i, 60 if q else 600, seed), timeout=400 if q else 1800) for i in range(2)]
+    j += [Job("miri", "w_contain", "c16 --len %d --nshards 5 --shard %d --secs %d --seed %d --random %d" % (2, i, 60 if q else 900, seed, 2 if q else 30), timeout=500 if q else 2400, miri_flags=M1, engine="miri-full") for i in range(5)]
+    return j
+
+
 PROPS = {
     "C09": {
         "level": "exploration",
@@ -156,5 +166,13 @@ PROPS = {
         "rule": "sequential request-response histories over 1-2 clients x 1-2 servers (max active requests 1-3, response buffer 1-4, borrow 1-3, overflow on/off, fire-and-forget on/off) biased to the reuse pattern 'pending response dropped while responses are queued, next request takes the channel'; unique ids in requests and responses; an exact model of every request buffer and every response channel buffer (including stale entries of dropped requests) is compared after every step; failing histories are shrunk by delta debugging. Non-trivial = a history in which a pending response was dropped with queued responses or a response was sent after the client had dropped, and responses were received; distinct = distinct (config, kinds of events).",
         "assumptions": COMMON_ASSUMPTIONS + ["with two servers the order in which stale entries are skipped is not observable; such channel queues are judged tolerantly until drained"],
         "floor": (300, 50),
+    },
+    "C16": {
+        "level": "exploration",
+        "jobs": c16_jobs,
+        "exhaustive": lambda tier: True,
+        "rule": "differential execution against std models (VecDeque, BTreeMap slab, BTreeMap, Vec, Vec<u8>) after every operation with an element life table, for queue (heap/fixed, capacity 0-3), slot map (heap/fixed, 1-3), flat map (heap/fixed, 1-3), vector (static/polymorphic-heap, 0-3), static string (1-4): ALL operation sequences up to length 5 (quick) / 6 (thorough) over the per-container alphabet (bounded to 5 for vectors and 4 for the 19-letter string alphabet), plus random sequences of length up to 40; release build for the enumeration, debug/ASan for shorter boxes, Miri for length <= 2 plus random short ones. Non-trivial = a history of maximal enumerated length or a random one; distinct = distinct (target, history). exhaustive=true refers to exactly this (length, alphabet, capacity) box.",
+        "assumptions": ["std containers are the reference semantics, capacity errors must leave the container unchanged", "String::retain removes the bytes for which the closure returns true (upstream test retain_works), the doc line of String::retain says the opposite"],
+        "floor": (100000, 20),
     },
 }
